@@ -555,28 +555,56 @@ def _filter_map_next(I, st, fid, bi, a, c, t):
 
 
 def _mutated_upvars(I, cid):
-    """indices of upvars the closure body assigns through (captured by &mut, or by value and mutated)"""
+    """indices of upvars the closure body may assign through: `(*_1).k = ..`, or a temp that holds
+    the captured `&mut` (MIR copies `(*_1).k` into a temp first) being written through / reborrowed
+    mutably / passed to a call"""
     body = I.bodies.get(cid)
     out = set()
     if body is None:
         return out
-    def scan(place):
-        pr = place['proj']
+
+    def upvar_of(place):
         if place['l'] != 1:
-            return
-        for k, e in enumerate(pr):
+            return None
+        for e in place['proj']:
             if e['k'] == 'field' and e.get('adt', '').startswith('closure:'):
-                out.add(e['i'])
-                return
+                return e['i']
+        return None
+    alias = {}
+    for blk in body['blocks']:
+        for s in blk['stmts']:
+            if s['k'] == 'assign' and not s['place']['proj']:
+                rv = s['rv']
+                src = None
+                if rv['k'] == 'use' and rv['o'].get('k') in ('copy', 'move'):
+                    src = rv['o']['place']
+                elif rv['k'] in ('ref', 'rawptr'):
+                    src = rv['place']
+                if src is not None:
+                    k = upvar_of(src)
+                    if k is None and src['l'] in alias:
+                        k = alias[src['l']]
+                    if k is not None and ('&mut' in (s['place'].get('ty') or '') or '*mut' in (s['place'].get('ty') or '')):
+                        alias[s['place']['l']] = k
     for blk in body['blocks']:
         for s in blk['stmts']:
             if s['k'] == 'assign':
-                scan(s['place'])
-                if s['rv']['k'] in ('ref', 'rawptr') and s['rv'].get('mut', True):
-                    scan(s['rv']['place'])
+                pl = s['place']
+                k = upvar_of(pl)
+                if k is not None and any(e['k'] == 'field' for e in pl['proj']):
+                    out.add(k)
+                if pl['l'] in alias and pl['proj'] and pl['proj'][0]['k'] == 'deref':
+                    out.add(alias[pl['l']])
         t = blk['term']
         if t['k'] == 'call':
-            scan(t['dest'])
+            k = upvar_of(t['dest'])
+            if k is not None:
+                out.add(k)
+            if t['dest']['l'] in alias and t['dest']['proj']:
+                out.add(alias[t['dest']['l']])
+            for a in t['args']:
+                if a.get('k') in ('copy', 'move') and a['place']['l'] in alias and not a['place']['proj']:
+                    out.add(alias[a['place']['l']])
     return out
 
 
